@@ -83,32 +83,39 @@ MAX_MODEL_CHARS = 6000
 
 # rename keys that never apply: their first component is used by no generated import and the key
 # never occurs as a whole word; look-alikes with another character in place of the dot do occur
-RENAME_KEYS = ["zq.w", "k9.vv", "qq.r.s", "zq.w.k9"]
+RENAME_KEYS = ["zq.w", "k9.vv", "qq.r.s", "hold.mod", "bad.ge", "w5.z"]
 
 
 def lookalikes(r, key):
+    """lines in which `key` never occurs as a whole word, but (a) with another character in place of a
+    dot, (b) embedded in a longer word / dotted name: prefix-, suffix- and infix-embedded; in code,
+    strings and comments"""
     alts = [key.replace(".", c) for c in ("_", "/", "-", "X", " ", "$", "..")]
+    emb = ["x" + key, key + "x", "a_%s_b" % key, "thr" + key + "9", "q" + key, key + "_"]
     ident = key.replace(".", "_")
     lines = ["%s = 1" % ident,
-             "s = '%s %s'" % (r.choice(alts), r.choice(alts)),
-             "# %s %s %s" % (r.choice(alts), r.choice(alts), key.replace(".", "Z")),
-             'print(%s, "%s")  # %s' % (ident, key.replace(".", "/"), key.replace(".", "-")),
-             "def f_%s():\n    return %s + %s" % (ident, ident, key.replace(".", "X"))]
+             "s = '%s %s %s'" % (r.choice(alts), r.choice(emb), r.choice(emb)),
+             "# %s %s %s %s" % (r.choice(alts), r.choice(emb), r.choice(emb), key.replace(".", "Z")),
+             'print(%s, "%s")  # %s' % (ident, r.choice(emb), r.choice(emb)),
+             "def f_%s():\n    return %s + x%s + %sx" % (ident, ident, key, key),
+             "v = (a_%s_b, q%s)  # %s" % (key, key, "x" + key),
+             "t = \"\"\"%s\n# %s\n\"\"\"" % (key + "x", "x" + key)]
     r.shuffle(lines)
-    return lines[:r.randint(2, 5)]
+    return lines[:r.randint(3, 6)]
 
 
 def with_rename_map(r, src):
-    """(src', map): src with look-alike lines added (one comment at the top, the rest at the end),
-    and a non-empty rename map none of whose keys occurs as a whole word in src'."""
+    """(src', map): src with near-match lines added (one comment at the top, the rest at the end),
+    and a rename map with 2-4 entries (sometimes 1) none of whose keys occurs as a whole word in src'
+    or matches an import."""
     import re
-    keys = r.sample(RENAME_KEYS, r.randint(1, 2))
-    m = {k: r.choice(["n.y", "renamed", "pp.%s" % k.replace(".", "_")]) for k in keys}
+    keys = r.sample(RENAME_KEYS, r.choice([1, 2, 2, 3, 4]))
+    m = {k: r.choice(["n.y", "renamed", "pp.%s" % k.replace(".", "_"), "NEW"]) for k in keys}
     body = src if src.endswith("\n") else src + "\n"
     extra = []
     for k in keys:
         extra += lookalikes(r, k)
-    new = "# %s\n" % keys[0].replace(".", "_") + body + "\n".join(extra) + ("\n" if r.random() < .8 else "")
+    new = "# %s x%s\n" % (keys[0].replace(".", "_"), keys[-1]) + body + "\n".join(extra) + ("\n" if r.random() < .8 else "")
     if not G.compiles(new) or any(re.search(r"\b%s\b" % re.escape(k), new) for k in keys):
         return None, None
     return new, m
@@ -132,6 +139,8 @@ def gen_cases(ctx, n, ncorpus=0):
     for tag, tool, src, m in [
             ("map1", "transform_map", "import os\nm_x = 1\ns = 'm/x'  # m-x mXx\nprint(m_x)\n", {"m.x": "n.y"}),
             ("map2", "canonicalize_map", "# a_b\nimport os, sys\na_b = 'a/b a-b'\n", {"a.b": "c.d", "zq.w": "renamed"}),
+            ("map4", "canonicalize_map", "import os\nx = threshold.mod  # threshold.mod\ns = 'bad.baadge xbad.ba'\n", {"hold.mod": "new.mod", "bad.ba": "good.goo"}),
+            ("map5", "transform_map", "import os\nx = (xzq.w, zq.wx, a_zq.w_b, k9.vvv, ak9.vv)  # xzq.w zq.wx ak9.vv\n", {"zq.w": "n.y", "k9.vv": "m", "qq.r.s": "t"}),
             ("map3", "transform_map", "x = 1\nzq_w = 2  # zq$w zq..w\n", {"zq.w": "n.y"})]:
         cases.append({"kind": "witness", "tag": tag, "tool": tool, "src": src, "sp": [1, 1], "params": {}, "db": 0,
                       "flags": [True, True, True], "map": m})
